@@ -20,11 +20,13 @@ import (
 	"os"
 	"strconv"
 	"strings"
+	"sync/atomic"
 	"testing"
 	"testing/synctest"
 	"time"
 
 	quic "github.com/refraction-networking/uquic"
+	"github.com/refraction-networking/uquic/internal/protocol"
 	"github.com/refraction-networking/uquic/internal/verifharness/e2e"
 	"github.com/refraction-networking/uquic/internal/verifharness/vh"
 	"github.com/refraction-networking/uquic/qlog"
@@ -34,7 +36,44 @@ var theT *testing.T
 
 type runner struct{}
 
+// redialOps: every kind of client x every way the first connection on the transport ends, with the second dial inside and
+// after the closing period of the first; walked through first, then drawn at random.
+func redialOps() []string {
+	var out []string
+	for _, cli := range []string{"plain0", "chrome", "plain4", "firefox", "uplain"} {
+		for _, how := range []string{"closec", "closes", "vn", "cancel"} {
+			for _, gap := range []int{0, 40, 2500} {
+				if (how == "vn" && gap != 0) || (how == "cancel" && gap == 2500) {
+					continue
+				}
+				out = append(out, fmt.Sprintf("redial cli=%s how=%s gap=%d scid=8 rtt=20 hold=2500 wait=6000 retry=%d", cli, how, gap, len(out)%2))
+			}
+		}
+	}
+	return out
+}
+
+var opCounter atomic.Int64
+
 func (rn *runner) GenOp(r *vh.Rand, i int) string {
+	if n := int(opCounter.Add(1)) - 1; n%3 == 2 && n/3 < len(redialOps()) {
+		return redialOps()[n/3]
+	}
+	if r.Chance(22) { // a second connection on the same transport: re-dial after a close / after Version Negotiation
+		how := []string{"closec", "closes", "vn", "cancel"}[r.Intn(4)]
+		gap := []int64{0, r.Range(0, 100), r.Range(0, 700), r.Range(1500, 4000)}[r.Intn(4)]
+		if how == "vn" {
+			gap = 0
+		}
+		rtt := r.Range(2, 80)
+		extra := ""
+		if how == "cancel" && r.Chance(60) {
+			extra = fmt.Sprintf(" cancelat=%d", r.Range(0, 3*rtt))
+		}
+		return fmt.Sprintf("redial cli=%s how=%s gap=%d scid=%d rtt=%d hold=%d wait=%d retry=%d%s",
+			[]string{"plain0", "chrome", "chrome", "plain4", "firefox", "uplain"}[r.Intn(6)], how, gap,
+			[]int{4, 8, 16}[r.Intn(3)], rtt, r.Range(1500, 4000), r.Range(5000, 9000), r.Intn(2), extra)
+	}
 	if r.Chance(40) { // a client that probes one or two more paths (second / third Transport), possibly migrates, possibly back
 		closer := "c"
 		if r.Bool() {
@@ -115,6 +154,9 @@ func contains(l [][]byte, x []byte) bool {
 func (rn *runner) Exec(op string) (res string) {
 	if strings.HasPrefix(op, "mig") {
 		return rn.execMig(op)
+	}
+	if strings.HasPrefix(op, "redial") {
+		return rn.execRedial(op)
 	}
 	if !strings.HasPrefix(op, "scn") {
 		return "skip"
@@ -526,6 +568,276 @@ func (rn *runner) execMig(op string) (res string) {
 					res += fmt.Sprintf(" end_p%d=0/0", i+1)
 				}
 			}
+		})
+	})
+	return res
+}
+
+// execRedial: TWO connections, one after the other, dialled on the SAME client transport (the glue under test is
+// Transport.doDial / UTransport.doDial: the new connection's source connection ID is registered in the transport's
+// routing table). With zero-length connection IDs (cli=plain0: ConnectionIDGenerator of length 0; cli=chrome: the
+// QUICSpec says SrcConnIDLength 0) both connections use the same - empty - ID, and while the first connection's closing
+// period lasts that ID is held by its closed stand-in.
+//
+// op:     redial cli=<plain0|plain4|chrome|firefox|uplain> how=<closec|closes|vn|cancel> [cancelat=<ms>] retry=<0|1> gap=<ms> scid=<len> rtt=<ms> hold=<ms> wait=<ms>
+//
+//	how=closec / closes: the first connection completes its handshake and is closed by the client / the server; the second
+//	                     dial starts <gap> ms after the client saw the close
+//	how=vn:              the server only speaks QUIC v2: the first attempt (v1) is answered with Version Negotiation,
+//	                     closed, and Dial itself immediately dials again with v2
+//
+//	how=cancel:          the context of the first Dial ends while the handshake is under way (doDial destroys the connection)
+//	retry=1:             the server answers every first Initial with a Retry
+//
+// result: d1=<ok|vn|cancelled|err> after1=<entries of the client's table that still route to a live connection when the
+//
+//	        second dial begins; vn: -> d2reg=<kind of the handler of the new connection's ID the instant after the second dial registered it; vn: -> d2=<ok|err> d2route=<kind of the handler of the new connection's ID right after Dial returned>
+//
+//		echo=<ok|…: a stream echoed by the server long after the first connection's closing period> late=<kind then>
+//		end_srv=<routes>/<tokens> end_cli=<routes>/<tokens>
+func (rn *runner) execRedial(op string) (res string) {
+	cli := sfield(op, "cli", "plain4")
+	how := sfield(op, "how", "closec")
+	retry := field(op, "retry", 0) == 1
+	gap := time.Duration(field(op, "gap", 0)) * time.Millisecond
+	scid := int(field(op, "scid", 8))
+	rtt := time.Duration(field(op, "rtt", 20)) * time.Millisecond
+	hold := time.Duration(field(op, "hold", 2500)) * time.Millisecond
+	wait := time.Duration(field(op, "wait", 6000)) * time.Millisecond
+	var spec *quic.QUICSpec
+	switch cli {
+	case "plain0", "plain4", "uplain":
+	case "chrome":
+		s, err := quic.QUICID2Spec(quic.QUICChrome_115)
+		if err != nil {
+			return "skip"
+		}
+		spec = &s
+	case "firefox":
+		s, err := quic.QUICID2Spec(quic.QUICFirefox_116)
+		if err != nil {
+			return "skip"
+		}
+		spec = &s
+	default:
+		return "skip"
+	}
+	if how != "closec" && how != "closes" && how != "vn" && how != "cancel" {
+		return "skip"
+	}
+	res = "d1=bubble-failed"
+	theT.Run("redial", func(t *testing.T) {
+		synctest.Test(t, func(t *testing.T) {
+			setup := e2e.Setup{RTT: rtt, Spec: spec,
+				ServerTransport: func(tr *quic.Transport) {
+					tr.ConnectionIDLength = scid
+					tr.VerifySourceAddress = func(net.Addr) bool { return retry }
+				},
+				ClientTransport: func(tr *quic.Transport) {
+					switch cli {
+					case "plain0":
+						tr.ConnectionIDGenerator = &protocol.ExpEmptyConnectionIDGenerator{}
+					case "plain4", "uplain":
+						tr.ConnectionIDLength = 4
+					}
+				},
+			}
+			if how == "vn" {
+				setup.ServerConf = &quic.Config{Versions: []quic.Version{quic.Version2}}
+				setup.ClientConf = &quic.Config{Versions: []quic.Version{quic.Version1, quic.Version2}}
+			}
+			env, err := e2e.Start(setup)
+			if err != nil {
+				res = "d1=start:" + errWord(err)
+				return
+			}
+			defer env.Close()
+			if cli == "uplain" { // UTransport.doDial without a QUICSpec
+				env.ClientUTr = &quic.UTransport{Transport: env.ClientTr}
+			}
+			srvConns := make(chan *quic.Conn, 4)
+			go func() {
+				for {
+					c, err := env.Listener.Accept(context.Background())
+					if err != nil {
+						return
+					}
+					select {
+					case srvConns <- c:
+					default:
+					}
+					go func() {
+						for {
+							s, err := c.AcceptStream(context.Background())
+							if err != nil {
+								return
+							}
+							go func() {
+								b, _ := io.ReadAll(s)
+								s.Write(b)
+								s.Close()
+							}()
+						}
+					}()
+				}
+			}()
+			ctx, cancel := context.WithTimeout(context.Background(), 60*time.Second)
+			defer cancel()
+			dial := func() (*quic.Conn, error) {
+				dctx, dcancel := context.WithTimeout(ctx, 12*time.Second)
+				defer dcancel()
+				return env.Dial(dctx)
+			}
+			d1 := "ok"
+			d2reg := "-"
+			after1 := "-"
+			var c2 *quic.Conn
+			mark := 0 // datagrams the client had sent when the second dial began
+			// the source connection ID of the second connection (attempt): the SCID of the first long header packet the client
+			// sent after the second dial began (how=vn: the first one that carries QUIC v2)
+			var newID []byte
+			findNewID := func() {
+				newID = nil
+				for _, d := range env.Net.Datagrams(e2e.ToServer) {
+					if _, _, src, ok := longHeader(d.Data); ok {
+						if how == "vn" && !bytes.Equal(d.Data[1:5], []byte{0x6b, 0x33, 0x43, 0xcf}) {
+							continue
+						}
+						if how != "vn" && d.Index < mark {
+							continue
+						}
+						newID = append([]byte{}, src...)
+						break
+					}
+				}
+			}
+			kindOf := func() string {
+				ids, kinds, _ := quic.VerifTransportRouting(env.ClientTr)
+				for i, id := range ids {
+					if bytes.Equal(id, newID) {
+						return kinds[i]
+					}
+				}
+				return "none"
+			}
+			if how == "vn" {
+				d1 = "vn"
+				c2, err = dial()
+			} else {
+				if how == "cancel" {
+					// the application gives up while the first flight is on its way (3/4 RTT: no answer yet, or cancelat ms)
+					d1 = "cancelled"
+					at := time.Duration(field(op, "cancelat", int64(rtt*3/4/time.Millisecond))) * time.Millisecond
+					cctx, ccancel := context.WithTimeout(ctx, at)
+					c1, err1 := env.Dial(cctx)
+					ccancel()
+					if err1 == nil { // a very early cancel can lose against a fast handshake: then it is a plain close
+						d1 = "ok"
+						c1.CloseWithError(7, "bye")
+						<-c1.Context().Done()
+					}
+				} else {
+					c1, err1 := dial()
+					if err1 != nil {
+						res = "d1=dial:" + errWord(err1)
+						return
+					}
+					var sc1 *quic.Conn
+					select {
+					case sc1 = <-srvConns:
+					case <-time.After(5 * time.Second):
+						res = "d1=accept-failed"
+						return
+					}
+					time.Sleep(300 * time.Millisecond)
+					if how == "closes" {
+						sc1.CloseWithError(7, "bye")
+					} else {
+						c1.CloseWithError(7, "bye")
+					}
+					select {
+					case <-c1.Context().Done():
+					case <-time.After(5 * time.Second):
+						res = "d1=close-not-seen"
+						return
+					}
+				}
+				time.Sleep(gap)
+				synctest.Wait()
+				// the first connection is over: whatever is left of it in the table is a closed stand-in
+				after1 = "0"
+				if _, kinds, _ := quic.VerifTransportRouting(env.ClientTr); true {
+					n := 0
+					for _, k := range kinds {
+						if k == "conn" {
+							n++
+						}
+					}
+					after1 = strconv.Itoa(n)
+				}
+				mark = len(env.Net.Datagrams(e2e.ToServer))
+				type dres struct {
+					c   *quic.Conn
+					err error
+				}
+				dch := make(chan dres, 1)
+				go func() {
+					c, err := dial()
+					dch <- dres{c, err}
+				}()
+				// the instant after doDial registered the new connection and its first flight left
+				synctest.Wait()
+				findNewID()
+				d2reg = kindOf()
+				r := <-dch
+				c2, err = r.c, r.err
+			}
+			d2 := "ok"
+			if err != nil {
+				d2 = "err:" + errWord(err)
+			}
+			synctest.Wait()
+			findNewID()
+			d2route := kindOf()
+			if os.Getenv("VH_DEBUG") != "" {
+				ids, kinds, _ := quic.VerifTransportRouting(env.ClientTr)
+				fmt.Fprintf(os.Stderr, "after dial 2 (%v): newID=%x routes=%x kinds=%v\n", err, newID, ids, kinds)
+			}
+			echo, late := "-", "-"
+			if c2 != nil {
+				time.Sleep(hold) // well beyond the first connection's closing period
+				echo = "ok"
+				ectx, ecancel := context.WithTimeout(ctx, 5*time.Second)
+				s, err := c2.OpenStreamSync(ectx)
+				if err != nil {
+					echo = "open:" + errWord(err)
+				} else {
+					s.SetDeadline(time.Now().Add(5 * time.Second))
+					s.Write([]byte("ping"))
+					s.Close()
+					if b, err := io.ReadAll(s); err != nil || string(b) != "ping" {
+						echo = "read:" + errWord(err)
+					}
+				}
+				ecancel()
+				synctest.Wait()
+				// (the server may retire the first ID of a connection with non-zero-length IDs; some ID must be routed)
+				late = "none"
+				if _, kinds, _ := quic.VerifTransportRouting(env.ClientTr); len(kinds) > 0 {
+					late = "stale"
+					for _, k := range kinds {
+						if k == "conn" {
+							late = "conn"
+						}
+					}
+				}
+				c2.CloseWithError(7, "bye")
+			}
+			time.Sleep(wait)
+			synctest.Wait()
+			sids, _, stok := quic.VerifTransportRouting(env.ServerTr)
+			cids, _, ctok := quic.VerifTransportRouting(env.ClientTr)
+			res = fmt.Sprintf("d1=%s after1=%s d2reg=%s d2=%s d2route=%s echo=%s late=%s end_srv=%d/%d end_cli=%d/%d", d1, after1, d2reg, d2, d2route, echo, late, len(sids), stok, len(cids), ctok)
 		})
 	})
 	return res
